@@ -1150,6 +1150,9 @@ func (sp *ServiceProvider) decryptElement(encryptedEl *etree.Element) (*etree.El
 	if err := doc.ReadFromBytes(plaintextEl); err != nil {
 		return nil, fmt.Errorf("cannot parse plaintext response %v", err)
 	}
+	if doc.Root() == nil {
+		return nil, errors.New("plaintext response contains no element")
+	}
 	return doc.Root(), nil
 }
 
@@ -1185,7 +1188,16 @@ func (sp *ServiceProvider) validateAssertion(assertion *Assertion, possibleReque
 	if assertion.Issuer.Value != sp.IDPMetadata.EntityID {
 		return fmt.Errorf("issuer is not %q", sp.IDPMetadata.EntityID)
 	}
+	if assertion.Subject == nil {
+		return fmt.Errorf("assertion has no Subject")
+	}
+	if assertion.Conditions == nil {
+		return fmt.Errorf("assertion has no Conditions")
+	}
 	for _, subjectConfirmation := range assertion.Subject.SubjectConfirmations {
+		if subjectConfirmation.SubjectConfirmationData == nil {
+			return fmt.Errorf("assertion SubjectConfirmation has no SubjectConfirmationData")
+		}
 		requestIDvalid := false
 
 		// We *DO NOT* validate InResponseTo when AllowIDPInitiated is set. Here's why:
